@@ -308,7 +308,9 @@ class NetworkMixin(RadioMixin):
         lvl = min(4, max(lvl, 0))
         self._net_lvl = lvl
         self._rf24.listen = False
-        self._rf24.open_rx_pipe(0, self._pipe_address(_lvl_2_addr(lvl), 0))
+        # without multicasting, pipe 0 stays on this node's own address (as _begin() set it)
+        target = _lvl_2_addr(lvl) if self.allow_multicast else self._addr
+        self._rf24.open_rx_pipe(0, self._pipe_address(target, 0))
         self._rf24.listen = True
 
     @property
